@@ -365,3 +365,48 @@ def runMain (flows : List (String × FlowDef)) (fuel : Nat) (mainBody : List Stm
   | .ok f => exec flows fuel { insts := [(0, f)], next := 1 } 0 mainBody
 
 end NemoVerif.Bind
+
+namespace NemoVerif.Bind.Heap
+open NemoVerif
+
+/-! ### Reference-semantics side model (open finding `inplace-mutation-of-passed-container`)
+
+  The main model treats values as immutable.  The real interpreter stores the *object* it finds in
+  the StartFlow event in `FlowState.arguments` / `context`, so a list passed as an argument is one
+  Python object referenced by caller and callee.  This small model has just enough structure to
+  state that: variables hold addresses, the heap holds the lists. -/
+
+structure HSt where
+  heap : List (Nat × List Val)
+  vars : List ((Nat × String) × Nat)      -- (instance uid, variable) ↦ address
+
+def cell (a : Nat) : List (Nat × List Val) → Option (List Val)
+  | [] => none
+  | (a', l) :: r => if a' = a then some l else cell a r
+
+def addrOf (u : Nat) (x : String) : List ((Nat × String) × Nat) → Option Nat
+  | [] => none
+  | ((u', x'), a) :: r => if u' = u ∧ x' = x then some a else addrOf u x r
+
+def read (s : HSt) (u : Nat) (x : String) : Option (List Val) :=
+  match addrOf u x s.vars with
+  | some a => cell a s.heap
+  | none => none
+
+/-- what `create_flow_instance` does with a list argument: the parameter refers to the SAME object -/
+def bindByRef (s : HSt) (caller callee : Nat) (arg param : String) : HSt :=
+  match addrOf caller arg s.vars with
+  | some a => { s with vars := ((callee, param), a) :: s.vars }
+  | none => s
+
+def updCell (a : Nat) (v : Val) : List (Nat × List Val) → List (Nat × List Val)
+  | [] => []
+  | (a', l) :: r => if a' = a then (a', l ++ [v]) :: updCell a v r else (a', l) :: updCell a v r
+
+/-- `$z = $x.append(v)` evaluated in instance `u`: the object is mutated in place -/
+def appendInPlace (s : HSt) (u : Nat) (x : String) (v : Val) : HSt :=
+  match addrOf u x s.vars with
+  | some a => { s with heap := updCell a v s.heap }
+  | none => s
+
+end NemoVerif.Bind.Heap
